@@ -247,6 +247,10 @@ func VerifC12AnalyticOrder() {
 	src := []string{
 		"select id, rank() over (order by id), sum(id) over (order by id desc), first_value(id) over (order by k, id) from t",
 		"select id, row_number() over (order by k desc, id), count(*) over (partition by k), max(id) over (order by id desc), lag(id) over (order by id) from t",
+		// the same function written twice next to others that order differently; in ORDER BY and inside expressions
+		"select id, rank() over (order by k desc), row_number() over (order by id desc), rank() over (order by k desc) * 10 from t",
+		"select id, row_number() over (order by id desc) + 1, rank() over (order by k), row_number() over (order by id desc), rank() over (order by k) from t order by rank() over (order by k), id",
+		"select id, sum(id) over (order by id desc), sum(id) over (order by id desc), count(*) over (order by k, id), sum(id) over (order by id desc) from t",
 	}
 	qi := verifChoice("query", len(src))
 	const n = 3
